@@ -30,6 +30,9 @@ def base_spec(vals):
          "neg": [rq(C("sid", 0x7F), MR("rsid"), NRC("nrc", [0x11, 0x31]))]},
         {"name": "session", "request": rq(C("sid", 0x10), V("kind", default=vals["dflt"])),
          "pos": [rq(C("sid", 0x50), V("kind"), C("p2", vals["p2"], 16))]},
+        # a service whose short name is a Python keyword
+        {"name": "import", "request": rq(C("sid", 0x31), V("p")),
+         "pos": [rq(C("sid", 0x71), C("k", vals["k"]))]},
         # a request without constant prefix (it starts with a value)
         {"name": "raw", "request": rq(V("first"), C("mid", 0x99)), "pos": [rq(C("sid", 0x40), V("r"))]},
         # (last: the catalogue builder numbers its ids consecutively, so deleting it shifts no id)
@@ -38,7 +41,7 @@ def base_spec(vals):
     ], "gnr": []}
 
 
-BASE = {"mark": 0x5A, "ypos": 3, "chk": 0x77, "dflt": 3, "p2": 0x0032, "chk2": 0x11}
+BASE = {"k": 0x21, "mark": 0x5A, "ypos": 3, "chk": 0x77, "dflt": 3, "p2": 0x0032, "chk2": 0x11}
 
 # numeric edits: name -> (service, where, parameter, property the tool must name)
 NUMERIC = {
@@ -46,9 +49,10 @@ NUMERIC = {
     "response-const": ("chk", "read", "positive response parameter 'chk'", "Value"),
     "response-const-16": ("p2", "session", "positive response parameter 'p2'", "Value"),
     "second-response-const": ("chk2", "read", "positive response parameter 'chk2'", "Value"),
+    "keyword-named-service-const": ("k", "import", "positive response parameter 'k'", "Value"),
     "response-byte-position": ("ypos", "read", "positive response parameter 'y'", "Byte position"),
 }
-RANGE = {"mark": (0, 255), "chk": (0, 255), "p2": (0, 65535), "ypos": (0, 5), "chk2": (0, 255)}
+RANGE = {"mark": (0, 255), "chk": (0, 255), "p2": (0, 65535), "ypos": (0, 5), "chk2": (0, 255), "k": (0, 255)}
 
 
 def _edit_structural(spec, kind):
